@@ -99,6 +99,13 @@ where
     #[inline(always)]
     fn refill_buffer(&mut self) {
         let buffer_len = self.remaining_file_bytes().min(Self::NORMAL_BUFFER_SIZE);
+        #[cfg(anydb_verif)]
+        crate::verif::access_meta(
+            "raw_io:refill",
+            &self._lock,
+            self.file_offset - self._lock.start(),
+            buffer_len,
+        );
         self.file
             .read_exact(&mut self.buffer[..buffer_len])
             .expect("Failed to read file buffer");
